@@ -181,6 +181,66 @@ fn fuzz(out: &mut Out, seed: u64, n: u64, w: &World) {
         }
         emit_fuzz(out, "regress", REGRESSION_INPUTS.len() as u64, panics);
     }
+    // well-formed responses (PTR answer + additional TXT record) whose TXT character-strings run through a small
+    // grammar: every string over {", \, a, space, =} up to length 4, alone and behind a dnsaddr= prefix
+    {
+        let mut panics: Vec<(String, String)> = vec![];
+        let mut n_txt = 0u64;
+        let alpha: [u8; 5] = [b'"', b'\\', b'a', b' ', b'='];
+        let mut strings: Vec<Vec<u8>> = vec![vec![]];
+        let mut layer: Vec<Vec<u8>> = vec![vec![]];
+        for _ in 0..4 {
+            let mut next = vec![];
+            for s in &layer {
+                for c in alpha {
+                    let mut t = s.clone();
+                    t.push(c);
+                    next.push(t);
+                }
+            }
+            strings.extend(next.iter().cloned());
+            layer = next;
+        }
+        let good = format!("dnsaddr=/ip4/10.0.0.1/tcp/4001/p2p/{}", w.ed).into_bytes();
+        let label = |out: &mut Vec<u8>, name: &str| {
+            for l in name.split('.') {
+                out.push(l.len() as u8);
+                out.extend_from_slice(l.as_bytes());
+            }
+            out.push(0);
+        };
+        for s in &strings {
+            for variant in 0..4 {
+                let cs: Vec<Vec<u8>> = match variant {
+                    0 => vec![s.clone()],
+                    1 => vec![[&b"dnsaddr="[..], s].concat()],
+                    2 => vec![good.clone(), s.clone()],
+                    _ => vec![[&b"\""[..], &good[..], s].concat()],
+                };
+                let mut pkt: Vec<u8> = vec![0, 0, 0x84, 0, 0, 0, 0, 1, 0, 0, 0, 1];
+                label(&mut pkt, "_p2p._udp.local");
+                pkt.extend_from_slice(&[0, 12, 0, 1, 0, 0, 0, 60]);
+                let mut rd = vec![];
+                label(&mut rd, "peer1._p2p._udp.local");
+                pkt.extend_from_slice(&(rd.len() as u16).to_be_bytes());
+                pkt.extend_from_slice(&rd);
+                label(&mut pkt, "peer1._p2p._udp.local");
+                pkt.extend_from_slice(&[0, 16, 0, 1, 0, 0, 0, 60]);
+                let mut rd = vec![];
+                for c in &cs {
+                    rd.push(c.len() as u8);
+                    rd.extend_from_slice(c);
+                }
+                pkt.extend_from_slice(&(rd.len() as u16).to_be_bytes());
+                pkt.extend_from_slice(&rd);
+                n_txt += 1;
+                if let Err(m) = vcommon::guard(|| verif::parse(&pkt, from_addr())) {
+                    panics.push((m, hex(&pkt)));
+                }
+            }
+        }
+        emit_fuzz(out, "txt", n_txt, panics);
+    }
     // corpus of valid packets to mutate
     let addrs = expand(w, &w.ed, &[json!({"c": "ip4", "n": 1, "rep": 3}), json!({"c": "len", "len": 200, "i": 0, "rep": 2}), json!({"c": "space", "i": 0})]);
     let mut corpus: Vec<Vec<u8>> = vec![verif::build_query(), verif::build_service_discovery_response(7, Duration::from_secs(60))];
